@@ -91,7 +91,7 @@ PART["C07"] = {
     "rule": "handler-level reshare without DKG: the harness re-shares the group secret (new polynomial, same constant term) and makes core's calls (TransitionNewGroup on remainers, new Handler+Catchup on "
             "joiners, StopAt on leavers) for shapes {same, add, remove, replace, threshold up, threshold down}, reshare issued at round 3-6 with the transition 2-4 rounds later, optional outage of one "
             "remainer across the transition or 15% loss, 1-2 epochs; oracles: C01/C02 store oracles across the transition with the ORIGINAL public key, bounded progress of every running new-group member "
-            "after the transition, and partials signed with previous-group shares (incl. leavers') sent to nodes whose vault has switched must not appear in that node's aggregator cache (hook), and every beacon a node AGGREGATES for a round at or after the transition must be backed by threshold-1 other members' partials, handed to that node, that the harness verified under the NEW group's public polynomial (the node's own is granted; with a late registration the new group governs from the following round). distinct = distinct case",
+            "after the transition (a case that halts is run a second time identically: halting twice is the violation, once only is inconclusive), and partials signed with previous-group shares (incl. leavers') sent to nodes whose vault has switched must not appear in that node's aggregator cache (hook), and every beacon a node AGGREGATES for a round at or after the transition must be backed by threshold-1 other members' partials, handed to that node, that the harness verified under the NEW group's public polynomial (the node's own is granted; with a late registration the new group governs from the following round). distinct = distinct case",
     "assumptions": ["the handler-level layer does not exercise the DKG itself (dkg and daemon engines do)"],
 }
 
